@@ -216,6 +216,7 @@ def check_config(ctx, F, tag):
 
     # ---------------- R3 composite loaders
     check_composite_loaders(ctx, F, tag, "C19.R3")
+    check_support_sample_counts(ctx, F, tag)
 
     # ---------------- R4 skip_option
     sk = F.body("serialize::skip_option")
@@ -233,7 +234,7 @@ def check_config(ctx, F, tag):
             # skipping happens only for a non-zero length
             fs = facts_at(sk, [bi for bi, t in sk.calls() if t is takes[0]][0])
             from guards import fact_nonzero
-            ok = ok and fact_nonzero(fs, size)
+            ok = ok and (fact_nonzero(fs, size) or fact_nonzero(fs, strip_casts(lim)))      # (tested on the element count or on the byte count)
     ctx.ob("C19.R4.skip-option-length", "serialize::skip_option" + tag, loc(sk.raw["span"]), ok, "term-provenance", detail)
 
     # ---------------- R5
@@ -367,6 +368,45 @@ def check_partial_unit_counts(ctx, F, tag, prefix="C19.R2"):
     ctx.ob(prefix + ".partial-unit-count-rounds-up", name + tag, loc(b.raw["span"]), not (trunc and data_dependent), "formula+builder-shape",
            "long_superblocks() = %s; the builder pushes a data-dependent number of `long` entries per superblock (loop): %s; truncating division: %s" % (
                tstr(t)[:80], data_dependent, trunc))
+
+
+def check_support_sample_counts(ctx, F, tag, prefix="C19.R2"):
+    """What `RankSupport::new` returns has one sample per block on every path: BitVector::load accepts a rank support only with
+    ceil(len / BLOCK_SIZE) blocks, so a constructor path that returns fewer (an early return with an empty vector for a special
+    case) writes files the library cannot read back.  Per aggregate: the samples are the vector the block loop pushes into, or a
+    vector created with the block count (`vec![x; blocks]`); an empty vector is accepted only behind a test that there are no blocks."""
+    rb = F.body("bit_vector::rank_support::RankSupport::new")
+    aggs = [(bi, st) for bi, si, st in rb.stmts() if st["s"] == "assign" and st["rv"]["r"] == "agg" and st["rv"].get("def") == "bit_vector::rank_support::RankSupport"]
+    if not aggs:
+        raise Undecided("anchor lost: RankSupport::new builds no RankSupport")
+    import c06
+    from facts import resolve_ref_local
+    pushed = set()
+    for bi, t in rb.calls():
+        if callee_name(t).startswith("std::vec::Vec::<") and callee_name(t).endswith("::push") and bi in rb.loop_blocks():
+            pushed.add(resolve_ref_local(rb, t["args"][0]))
+            pushed.add(c06.root_local(rb, t["args"][0]))
+    from pat import fold_consts
+    for k, (bi, st) in enumerate(aggs):
+        ops = dict(zip(st["rv"]["fields"], st["rv"]["ops"]))
+        sv = ops.get("samples")
+        t = core(rb.term_of_operand(sv))
+        root = c06.root_local(rb, sv)
+        verdict, how = None, "samples = %s" % tstr(t)[:70]
+        direct = operand_place(sv)
+        if root in pushed or (direct is not None and not direct["p"] and direct["l"] in pushed):
+            verdict, how = True, "the vector the block loop pushes into"
+        elif t[0] == "call" and t[1].startswith("std::vec::from_elem") and len(t[2]) == 2:
+            n = core(t[2][1])
+            is_blocks = any(x[0] == "const" and len(x) > 2 and x[2].endswith("::BLOCK_SIZE") for x in subterms(n)) or n[0] == "var"
+            verdict, how = (True if is_blocks else None), "vec![_; %s]" % tstr(n)[:50]
+        elif t[0] == "call" and t[1].startswith("std::vec::Vec::<") and t[1].split("::")[-1] in ("new",):
+            fs = facts_at(rb, bi)
+            from guards import fact_zero
+            empty_ok = any(f[0] == "cmp" and f[1] == "Eq" and strip_casts(f[3])[:2] == ("const", 0) and
+                           any(x[0] == "call" and x[1].endswith("::len") for x in subterms(f[2])) for f in fs)
+            verdict, how = (True if empty_ok else False), "an empty vector%s" % ("" if empty_ok else " on a path that is not restricted to vectors of length 0")
+        ctx.ob(prefix + ".rank-samples-per-block", "bit_vector::rank_support::RankSupport::new|#%d%s" % (k, tag), loc(st["sp"]), verdict, "value-provenance", how, positive=verdict is False)
 
 
 def check_validation_formulas(ctx, F, tag):
